@@ -281,8 +281,11 @@ def execute(scenario):
         if ei > 0 and meta.get("replay") and len(h.episodes) >= 2:
             probe("ruin_episode_replayed")
             e0 = h.episodes[0]
-            sig0 = [(st.get("exc"), st.get("done"), bool(st["done_before"])) for st in e0["steps"]]
-            sig1 = [(st.get("exc"), st.get("done"), bool(st["done_before"])) for st in ep["steps"]]
+            def step_sig(st):
+                return (st.get("exc"), st.get("done"), bool(st["done_before"]), sorted(noncash(st.get("hold")).items()),
+                        st.get("n_rec", 0) - st.get("n_rec_before", 0), st.get("nlv"))
+            sig0 = [step_sig(st) for st in e0["steps"]]
+            sig1 = [step_sig(st) for st in ep["steps"]]
             if sig0 != sig1 and not violations:
                 violate("replayed_episode_differs", "the same episode played again after reset() ends differently: first {} / second {}".format(sig0, sig1), kind="replay")
         if ei > 0 and not violations and ep["steps"] and all(s.get("exc") is None for s in ep["steps"] if not s["done_before"]):
